@@ -192,4 +192,107 @@ theorem snapshot_cell_stable (cells : List PreConf) (live : Nat) (ws : List Wire
   rw [List.getElem?_set_ne (by omega)]
   simp
 
+/-! ### the empty-block fallback -/
+
+/-- reads through the view around the empty fallback block: the canonical state at the head, plus
+exactly the block-hash write -/
+theorem fallback_reads (height : Nat) (hashOf : Nat → Option Felt) (d : Diff)
+    (hd : emptyBlockDiff hashOf (height + 1) = some d) (base : Base) :
+    let p := overlayOf [emptyPreConfirmedFor height d] base (height + 1)
+    (∀ a, p.classHash a = base.classHash a) ∧ (∀ a, p.nonce a = base.nonce a) ∧
+    (∀ h, p.cls h = base.cls h) ∧ (∀ h, p.casm h = base.casm h) ∧ (∀ h, p.casmV2 h = base.casmV2 h) ∧
+    (∀ a k, p.storage a k =
+      if a = blockHashContract ∧ blockHashLag ≤ height + 1 ∧ k = height + 1 - blockHashLag then hashOf k
+      else base.storage a k) := by
+  unfold emptyBlockDiff at hd
+  split at hd
+  · rename_i hlt
+    simp only [Option.some.injEq] at hd
+    subst hd
+    refine ⟨?_, ?_, ?_, ?_, ?_, ?_⟩ <;> intros <;>
+      simp [overlayOf, emptyPreConfirmedFor, PState.classHash, PState.nonce, PState.cls, PState.casm,
+        PState.casmV2, PState.storage, Diff.merge, Diff.empty, AMap.copyInto, AMap.get, AMap.has,
+        mergeClassesInto, AMap.size, AMap.keys]
+    omega
+  · rename_i hge
+    simp only at hd
+    split at hd
+    · exact absurd hd (by simp)
+    · rename_i hh hk
+      simp only [Option.some.injEq] at hd
+      subst hd
+      refine ⟨?_, ?_, ?_, ?_, ?_, ?_⟩
+      · intro a
+        simp [overlayOf, emptyPreConfirmedFor, PState.classHash, Diff.merge, Diff.empty, AMap.copyInto, AMap.get]
+      · intro a
+        simp [overlayOf, emptyPreConfirmedFor, PState.nonce, Diff.merge, Diff.empty, AMap.copyInto, AMap.get, AMap.has]
+      · intro h
+        simp [overlayOf, emptyPreConfirmedFor, PState.cls, mergeClassesInto, AMap.size, AMap.keys, AMap.get]
+      · intro h
+        simp [overlayOf, emptyPreConfirmedFor, PState.casm, Diff.merge, Diff.empty, AMap.copyInto, AMap.get]
+      · intro h
+        simp [overlayOf, emptyPreConfirmedFor, PState.casmV2, Diff.merge, Diff.empty, AMap.copyInto, AMap.get]
+      · intro a k
+        simp only [overlayOf, emptyPreConfirmedFor, PState.storage, Diff.merge, Diff.empty, AMap.copyInto,
+          List.map_cons, List.map_nil, List.foldl_cons, List.foldl_nil, List.append_nil, AMap.get, AMap.has,
+          Option.isSome_none, Bool.false_eq_true, ↓reduceIte]
+        by_cases hc : a = blockHashContract ∧ k = height + 1 - blockHashLag
+        · obtain ⟨rfl, rfl⟩ := hc
+          have : blockHashLag ≤ height + 1 := by omega
+          simp [this, hk]
+        · have hne : ((blockHashContract, height + 1 - blockHashLag) == (a, k)) = false := by
+            rw [beq_eq_false_iff_ne]
+            intro he
+            simp only [Prod.mk.injEq] at he
+            exact hc ⟨he.1.symm, he.2.symm⟩
+          simp only [hne, Bool.false_eq_true, ↓reduceIte]
+          have : ¬ (a = blockHashContract ∧ blockHashLag ≤ height + 1 ∧ k = height + 1 - blockHashLag) := by
+            rintro ⟨h1, _, h3⟩; exact hc ⟨h1, h3⟩
+          simp [this]
+
+/-! ### per-entry lookups -/
+
+theorem txIndexFrom_some {l : List Tx} {i : Nat} {h : Felt} {tx : Tx} {k : Nat}
+    (hs : txIndexFrom l i h = some (tx, k)) :
+    i ≤ k ∧ l[k - i]? = some tx ∧ tx.hash = h ∧ ∀ j, j < k - i → ∀ t, l[j]? = some t → t.hash ≠ h := by
+  induction l generalizing i with
+  | nil => simp [txIndexFrom] at hs
+  | cons t rest ih =>
+    simp only [txIndexFrom] at hs
+    split at hs
+    · rename_i heq
+      simp only [Option.some.injEq, Prod.mk.injEq] at hs
+      obtain ⟨rfl, rfl⟩ := hs
+      refine ⟨Nat.le_refl _, by simp, by simpa using heq, ?_⟩
+      intro j hj; omega
+    · rename_i hne
+      obtain ⟨h1, h2, h3, h4⟩ := ih hs
+      refine ⟨by omega, ?_, h3, ?_⟩
+      · have : k - i = (k - (i + 1)) + 1 := by omega
+        rw [this, List.getElem?_cons_succ]; exact h2
+      · intro j hj t' ht'
+        cases j with
+        | zero =>
+          simp only [List.getElem?_cons_zero, Option.some.injEq] at ht'
+          subst ht'
+          simpa using hne
+        | succ j' =>
+          rw [List.getElem?_cons_succ] at ht'
+          exact h4 j' (by omega) t' ht'
+
+theorem txIndexFrom_none {l : List Tx} {i : Nat} {h : Felt} :
+    txIndexFrom l i h = none ↔ ∀ t ∈ l, t.hash ≠ h := by
+  induction l generalizing i with
+  | nil => simp [txIndexFrom]
+  | cons t rest ih =>
+    simp only [txIndexFrom, List.mem_cons, forall_eq_or_imp]
+    split
+    · rename_i heq
+      have : t.hash = h := by simpa using heq
+      simp [this]
+    · rename_i hne
+      have : t.hash ≠ h := by simpa using hne
+      rw [ih]
+      simp [this]
+
 end Juno.C20
